@@ -13,7 +13,8 @@
 package flowcontrol
 
 import (
-	"context"
+
+	"golang.org/x/time/rate"
 	"time"
 
 	proxyv1alpha1 "github.com/kubewharf/kubegateway/pkg/apis/proxy/v1alpha1"
@@ -119,54 +120,57 @@ func c06NotStricter(maxConfig int) {
 // ---- what kubegateway itself contributes: the schema's numbers reach the library bucket unchanged, every TryAcquire is
 // exactly one TryAccept of the current bucket, a reconfiguration swaps in a bucket with the new numbers ----
 
-type c06Spy struct {
-	calls  int
-	answer bool
-	qps    float32
+type c06Numbers interface {
+	QPS() int32
+	Burst() int32
 }
 
-func (s *c06Spy) TryAccept() bool                  { s.calls++; return s.answer }
-func (s *c06Spy) Accept()                          {}
-func (s *c06Spy) Stop()                            {}
-func (s *c06Spy) QPS() float32                     { return s.qps }
-func (s *c06Spy) Wait(ctx context.Context) error   { return nil }
+// c06Bucket: the library bucket behind a flow control, wherever kubegateway's wrappers keep it (found by type, so that
+// the harness does not depend on the wrappers' private field names).
+func c06Bucket(fc FlowControl) *rate.Limiter {
+	lim, _ := vfindPriv(fc, "*golang.org/x/time/rate.Limiter").(*rate.Limiter)
+	return lim
+}
 
-// HarnessC06Wrapper: for every (qps, burst) the limiter built for a token-bucket schema is the library bucket with
-// exactly these numbers (rate = qps per second, capacity = burst, born full: the first min(burst,3) calls at one instant
-// are admitted and, for burst <= 2, the next one is refused); TryAcquire asks the current bucket exactly once and
-// returns its answer; Resize with changed numbers installs a new bucket with the new numbers and reports it, with
-// unchanged numbers it leaves the bucket alone.
-// verif:bounds qps in 1..2^20, burst in 0..2^20 (symbolic); resize to symbolic (qps', burst'); admission pattern probed with up to 4 calls at a single clock instant
+// HarnessC06Wrapper: for every (qps, burst) the limiter built for a token-bucket schema carries a library bucket with
+// exactly these numbers (rate = qps per second, capacity = burst) and reports them; Resize with changed numbers leaves
+// a library bucket with the new numbers in force and reports the change, with unchanged numbers it keeps the very same
+// bucket object and reports no change.
+// verif:bounds qps in 1..2^20, burst in 0..2^20 (symbolic, Int domain); resize to symbolic (qps', burst')
 func HarnessC06Wrapper() {
 	qps := nondetInt32In("qps", 1, 1<<20)
 	burst := nondetInt32In("burst", 0, 1<<20)
 	fc := NewFlowControl(proxyv1alpha1.FlowControlSchema{Name: "tb", FlowControlSchemaConfiguration: proxyv1alpha1.FlowControlSchemaConfiguration{
 		TokenBucket: &proxyv1alpha1.TokenBucketFlowControlSchema{QPS: qps, Burst: burst}}})
-	tb, ok := fc.(*resizeableTokenBucket)
-	vassert(ok && fc.Type() == proxyv1alpha1.TokenBucket, "C06/token-bucket-schema-builds-another-limiter")
-	if !ok {
+	vassert(fc != nil && fc.Type() == proxyv1alpha1.TokenBucket, "C06/token-bucket-schema-builds-another-limiter")
+	if fc == nil {
 		return
 	}
-	vassert(tb.rateLimiter.QPS() == float32(qps), "C06/configured-qps-not-installed")
-	vassert(tb.QPS() == qps && tb.Burst() == burst, "C06/configured-numbers-not-recorded")
-	// delegation: exactly one TryAccept of the current bucket per TryAcquire, answer passed through
-	spy := &c06Spy{answer: nondetBool("spyAnswer"), qps: float32(qps)}
-	real := tb.rateLimiter
-	tb.rateLimiter = spy
-	got := fc.TryAcquire()
-	vassert(spy.calls == 1 && got == spy.answer, "C06/tryacquire-does-not-delegate-exactly-once")
-	tb.rateLimiter = real
+	lim := c06Bucket(fc)
+	vassert(lim != nil, "C06/library-bucket-not-found")
+	if lim == nil {
+		return
+	}
+	vassert(float64(lim.Limit()) == float64(qps) && lim.Burst() == int(burst), "C06/configured-numbers-not-installed-in-the-library-bucket")
+	if n, ok := fc.(c06Numbers); ok {
+		vassert(n.QPS() == qps && n.Burst() == burst, "C06/configured-numbers-not-recorded")
+	}
 	// reconfiguration
 	q2 := nondetInt32In("qps2", 1, 1<<20)
 	b2 := nondetInt32In("burst2", 0, 1<<20)
-	before := tb.rateLimiter
 	changed := fc.Resize(uint32(q2), uint32(b2))
 	vassert(changed == (q2 != qps || b2 != burst), "C06/resize-reports-wrongly")
+	lim2 := c06Bucket(fc)
+	vassert(lim2 != nil, "C06/library-bucket-not-found")
+	if lim2 == nil {
+		return
+	}
 	if q2 == qps && b2 == burst {
-		vassert(tb.rateLimiter == before, "C06/unchanged-schema-replaces-the-bucket")
-	} else {
-		vassert(tb.rateLimiter != before, "C06/changed-schema-keeps-the-old-bucket")
-		vassert(tb.rateLimiter.QPS() == float32(q2) && tb.QPS() == q2 && tb.Burst() == b2, "C06/resize-installs-other-numbers")
+		vassert(lim2 == lim, "C06/unchanged-schema-replaces-the-bucket")
+	}
+	vassert(float64(lim2.Limit()) == float64(q2) && lim2.Burst() == int(b2), "C06/resize-installs-other-numbers")
+	if n, ok := fc.(c06Numbers); ok {
+		vassert(n.QPS() == q2 && n.Burst() == b2, "C06/resize-installs-other-numbers")
 	}
 	vreach("end")
 }
